@@ -124,8 +124,10 @@ def run(ch, tier):
         targets = list(bound[i])
         mb = {k: list(v) for k, v in bound.items()}        # model of the bindings, evolves as active callables detach
         mc = {c_.name: c_.count for c_ in calls}
-        r = sim.step(truth)
+        via = gs.flag(1, 5)      # now and then through execute(max_steps=1): what it returns lists what was delivered
+        r = sim.step(truth, via_execute=via)
         res.stats['steps'] += 1
+        res.stats['steps_through_execute_max_steps_1'] += int(via)
         hist.append(('step', 'i%d' % i, r.ms and [repr(e) for e in r.ms.sent_events]))
         if r.exc is not None:
             if r.sel is not None and r.sel.err and type(r.exc).__name__ == r.sel.err:
